@@ -248,7 +248,7 @@ def run(chk):
         for _ in range(chk.n(400, 8000)):
             t, _, _ = gen_doc(rng, kind)
             t = gen.mutate(rng, t, [b"\n", b" ", b":", b",", b"x", b"-", b"(", b")", b"[", b"1", b"\t"])
-            if debgen.has_uspace(t) or any(k in t for k in (b"Epoch", b"Revision", b"Relations", b"ABI", b"OS:", b"CPU", b"Filename")):
+            if any(k in t for k in (b"Epoch", b"Revision", b"Relations", b"ABI", b"OS:", b"CPU", b"Filename")):
                 continue
             icases.append(("tdoc", [kind.encode(), t])); mcases.append(("cunmarshal", [kind.encode(), t]))
     impl = chk.run_impl(icases); model = chk.run_model(mcases)
